@@ -251,6 +251,26 @@ OpenQuery(q) ==
         \E b \in ClauseNames(q.clauses[i]) \cap ClauseNames(q.clauses[j]) :
             \A k \in 1..(i-1) : b \notin ClauseNames(q.clauses[k])
 
+\* What C10 states for the open pattern of chained OPTIONAL clauses whatever the treatment of NULL: no row is removed.
+\* j = the first OPTIONAL clause that shares a name only an earlier OPTIONAL clause introduced; when every clause from j on
+\* is OPTIONAL, each solution of the clauses before j appears in the result (on the projected names it assigns), at least
+\* once per distinct assignment.
+OptChainAt(cs, j) == cs[j].opt /\ \E i \in 1..(j - 1) : cs[i].opt /\
+    \E b \in ClauseNames(cs[i]) \cap ClauseNames(cs[j]) : \A k \in 1..(i - 1) : b \notin ClauseNames(cs[k])
+OptChainJudgeable(q) ==
+    /\ ~BoundNamesOpen(q.clauses) /\ FiltersOf(q) = <<>>
+    /\ \E j \in DOMAIN q.clauses : OptChainAt(q.clauses, j)
+    /\ LET j == CHOOSE j \in DOMAIN q.clauses : OptChainAt(q.clauses, j) /\ \A k \in 1..(j - 1) : ~OptChainAt(q.clauses, k)
+       IN  \A k \in j..Len(q.clauses) : q.clauses[k].opt
+LeftKeptDev(rows, q, dv) ==
+    LET cs == q.clauses
+        j == CHOOSE j \in DOMAIN cs : OptChainAt(cs, j) /\ \A k \in 1..(j - 1) : ~OptChainAt(cs, k)
+        S == SolutionsDev([q EXCEPT !.clauses = SubSeq(cs, 1, j - 1)], dv)
+        A == {x.a : x \in S}
+        agrees(r, a) == \A k \in DOMAIN q.proj : q.proj[k] \in DOMAIN a => r[k] = a[q.proj[k]]
+        same(a1, a2) == \A k \in DOMAIN q.proj : q.proj[k] \in DOMAIN a1 => a1[q.proj[k]] = a2[q.proj[k]]
+    IN  \A a \in A : Cardinality({n \in DOMAIN rows : agrees(rows[n], a)}) >= Cardinality({a2 \in A : same(a, a2)})
+
 \* ---------------------------------------------------------------------------------------------
 \* GROUP BY (C11): rows/grouped are sequences of rows; a row is a sequence of cells.
 \* spec = sequence of output columns [op |-> "key"|"count"|"countd"|"sum", i |-> input column]
